@@ -211,7 +211,7 @@ fn irr(rng: &mut Rng, ctx: &mut Ctx) {
         let mut body: Vec<Vec<u8>> = gecko_events(&r).into_iter().chain(per_frame.into_iter().flatten()).collect();
         if what == 0 || what >= 3 {
             let ncodes = 1 + (rng.next() % 3) as usize; let mut codes: Vec<(u8, u16)> = vec![];
-            while codes.len() < ncodes { let c = [0x11u8, 0x34, 0x3E, 0x3F, 0x0F, 0x00, 0xFF, 0x7B, 0x55, 0x7D][(rng.next() % 10) as usize]; if !KNOWN.contains(&c) && !codes.iter().any(|x| x.0 == c) { codes.push((c, 1 + (rng.next() % 600) as u16)); } }
+            while codes.len() < ncodes { let c = [0x11u8, 0x34, 0x3E, 0x3F, 0x0F, 0x00, 0xFF, 0x7B, 0x55, 0x7D][(rng.next() % 10) as usize]; if !KNOWN.contains(&c) && !codes.iter().any(|x| x.0 == c) { let size: u16 = match rng.next() % 14 { 0 => 1, 1 => 255, 2 => 256, 3 => 512, 4 => 516, 5 => 65534, 6 => 65535, _ => 1 + (rng.next() % 600) as u16 }; codes.push((c, size)); } }
             r.extra_payloads = codes.clone();
             for _ in 0..1 + rng.next() % 4 { let (c, s) = codes[(rng.next() as usize) % codes.len()]; let mut e = vec![c]; e.extend(rng.bytes(s as usize)); let i = (rng.next() as usize) % (body.len() + 1); body.insert(i, e); }
         }
